@@ -5,6 +5,7 @@ import (
 	"fmt"
 	"time"
 
+	"github.com/nyaruka/goflow/assets"
 	"github.com/nyaruka/goflow/flows"
 	"github.com/nyaruka/goflow/flows/routers"
 	"pgregory.net/rapid"
@@ -217,6 +218,16 @@ func DrawOptions(t *rapid.T, o GenOpts) Options {
 // DrawCase draws world, options and trigger (steps are drawn while running, see DrawStep).
 func DrawCase(t *rapid.T, o GenOpts) (*Case, *world.World) {
 	w := world.Draw(t, o.World)
+	// generator self-test: every generated flow must load (a failure here is a generator bug, never filtered)
+	sa, err := LoadAssets(w.JSON())
+	if err != nil {
+		panic(fmt.Sprintf("generator bug: assets do not load: %v", err))
+	}
+	for _, f := range w.Flows {
+		if _, err := sa.Flows().Get(assets.FlowUUID(f.UUID)); err != nil {
+			panic(fmt.Sprintf("generator bug: generated flow does not load: %v", err))
+		}
+	}
 	tr := DrawTrigger(t, w, o)
 	b, _ := json.Marshal(tr)
 	return &Case{Assets: w.JSON(), Options: DrawOptions(t, o), Trigger: b, Seed: int64(rapid.IntRange(1, 1000).Draw(t, "seed"))}, w
